@@ -17,6 +17,7 @@ func init() {
 	zzsv.Register("ZZ_C08_RegexpBodies", ZZ_C08_RegexpBodies)
 	zzsv.Register("ZZ_C08_RuntimeFaults", ZZ_C08_RuntimeFaults)
 	zzsv.Register("ZZ_C08_ConstantFaults", ZZ_C08_ConstantFaults)
+	zzsv.Register("ZZ_C08_ApiSequences", ZZ_C08_ApiSequences)
 	zzsv.Register("ZZ_C08_OddObjects", ZZ_C08_OddObjects)
 }
 
@@ -386,4 +387,94 @@ func ZZ_C08_ConstantFaults(sv *zzsv.T) {
 		sv.Observe("run", rerr != nil)
 	})
 	sv.Assert("C08.constfault.nopanic", ok)
+}
+
+// ZZ_C08_ApiSequences: the entry points in the orders a host may call them:
+// Prepare twice, Dump / Execute / Run before Prepare or after a Prepare that
+// rejected the script, Execute and Dump again afterwards - for valid,
+// invalid and faulting scripts: nothing panics into the caller, a script
+// prepared twice behaves like one prepared once, and the evaluator of a
+// rejected script keeps answering with errors.
+func ZZ_C08_ApiSequences(sv *zzsv.T) {
+	scripts := []string{
+		"return A + 1;",
+		"function f(p) { return p * 2; } return f(A);",
+		"function f(p) { local q; q = p; foreach v in [1, 2] { q = q + v; } return q; } function g() { return f(A); } x = g(); return x;",
+		"switch (A) { case 1 { return \"one\"; } default { return [A, 2.5, /re/]; } }",
+		"return (;",
+		"function f( { return 1; }",
+		"return A / 0;",
+		"x = \"unterminated",
+		"",
+	}
+	k := sv.Choice("script", len(scripts))
+	src := scripts[k]
+	sv.Note("script", src)
+	a := sv.Int64("A")
+	seqs := []string{"PE", "PPE", "PEPE", "E", "D", "R", "PD", "PDE", "PPDE", "EPE", "DPD", "PEDE"}
+	seq := seqs[sv.Choice("sequence", len(seqs))]
+	sv.Note("sequence", seq+" (P Prepare, E Execute, R Run, D Dump)")
+	var outs []object.Object
+	var errs []bool
+	ok := zzNoPanic(func() {
+		e := New(src)
+		e.SetVariable("A", &object.Integer{Value: a})
+		sv.StdoutStart()
+		for _, step := range seq {
+			switch step {
+			case 'P':
+				if sv.Choice("noopt", 2) == 1 {
+					_ = e.Prepare([]byte{NoOptimize})
+				} else {
+					_ = e.Prepare()
+				}
+			case 'E':
+				o, err := e.Execute(nil)
+				outs = append(outs, o)
+				errs = append(errs, err != nil)
+				if err == nil {
+					sv.Assert("C08.api.result_not_nil", o != nil)
+				}
+			case 'R':
+				_, err := e.Run(nil)
+				errs = append(errs, err != nil)
+			case 'D':
+				_ = e.Dump()
+			}
+		}
+		sv.StdoutEnd()
+	})
+	sv.Assert("C08.api.nopanic", ok)
+	if !ok {
+		return
+	}
+	// what a single Prepare + Execute gives
+	ref := New(src)
+	ref.SetVariable("A", &object.Integer{Value: a})
+	perr := ref.Prepare()
+	var ro object.Object
+	var rerr error
+	if perr == nil {
+		ro, rerr = ref.Execute(nil)
+	}
+	prepared := false
+	n := 0
+	for _, step := range seq {
+		switch step {
+		case 'P':
+			prepared = true
+		case 'E':
+			if prepared && perr == nil {
+				sv.Assert("C08.api.same_as_prepared_once", errs[n] == (rerr != nil) && (rerr != nil || zzSameObj(sv, outs[n], ro)))
+			} else {
+				sv.Assert("C08.api.unprepared_is_an_error", errs[n])
+			}
+			n++
+		case 'R':
+			if !prepared || perr != nil {
+				sv.Assert("C08.api.unprepared_is_an_error", errs[n])
+			}
+			n++
+		}
+	}
 }
